@@ -1,0 +1,49 @@
+//go:build verif
+
+package rtree
+
+import "fmt"
+
+// VerifCheck is a pure observer used by the verification harness (build tag
+// verif). It returns a description of every structural invariant of the tree
+// that does not hold: parent boxes are the exact bound of their children,
+// nodes have 1..maxEntries entries, no node mixes leaf and branch entries, and
+// the number of leaf entries equals Count().
+func (t *RTree) VerifCheck() []string {
+	var bad []string
+	if t.root == nil {
+		if t.count != 0 {
+			bad = append(bad, fmt.Sprintf("nil root but count=%d", t.count))
+		}
+		return bad
+	}
+	leaves := 0
+	var walk func(n *node, depth int)
+	walk = func(n *node, depth int) {
+		if n.numEntries < 1 || n.numEntries > maxEntries {
+			bad = append(bad, fmt.Sprintf("node at depth %d has %d entries", depth, n.numEntries))
+			return
+		}
+		nLeaf := 0
+		for i := 0; i < n.numEntries; i++ {
+			e := n.entries[i]
+			if e.child == nil {
+				nLeaf++
+				continue
+			}
+			if b := calculateBound(e.child); b != e.box {
+				bad = append(bad, fmt.Sprintf("entry box %v is not the bound %v of its child (depth %d)", e.box, b, depth))
+			}
+			walk(e.child, depth+1)
+		}
+		if nLeaf != 0 && nLeaf != n.numEntries {
+			bad = append(bad, fmt.Sprintf("node at depth %d mixes leaf and branch entries", depth))
+		}
+		leaves += nLeaf
+	}
+	walk(t.root, 0)
+	if leaves != t.count {
+		bad = append(bad, fmt.Sprintf("%d leaf entries but count=%d", leaves, t.count))
+	}
+	return bad
+}
